@@ -17,7 +17,7 @@ func init() {
 var uniNames = []string{"plain.dat", "with space.bin", "файл.dat", "文件.bin", "\U0001F600smile.dat", "áccent.txt", "\U00010348gothic", "UPPER.DAT", "dots.in.name", "x", "back\\slash.txt", "a[1]*?.dat", "-dash", "semi;colon&amp", "trailing.", "q'uo\"te"}
 
 // index file base names: the volume names are derived from them (extension replaced), so their spelling matters
-var p1Bases = []string{"arch", "backup", "data", "photos.tar", "a", "par", "x.p01", "with space", "UPPER", "r.a.p", "app"}
+var p1Bases = []string{"arch", "backup", "data", "photos.tar", "a", "par", "x.p01", "with space", "UPPER", "r.a.p", "app", "100% done", "%d%s"}
 
 func runP1Big(args []string) error {
 	c := newCommon("p1big")
